@@ -307,11 +307,14 @@ Proof. exact lim_ctx_history_l. Qed.
 Print Assumptions ctx_cancel_history.
 
 (* TaskRunner.Wait returns only when no slot is taken, no task goroutine is live (spawned,
-   running, or not yet cleaned up - by return or by panic) and no Schedule is pending *)
+   running, or in its epilogue - after return or panic) and no Schedule is pending.  The task
+   epilogue is two actions in the code's order: <-limitChan, then waitGroup.Done(); it is this
+   order that makes "Wait returned" imply "every slot is free" (Pinned.done_first_... refutes
+   the other order). *)
 Theorem wait_means_idle_taskrunner : forall n scripts sched t th s',
   let s := rexec n scripts sched in
   nth_error (rthreads s) t = Some th -> rpcof th = RWaitingWg -> rstep s t = Some s' ->
-  rwg s = 0 /\ rc s = 0 /\ rlive s = 0 /\ rrunning s = 0 /\ rscheduling s = 0.
+  rwg s = 0 /\ rc s = 0 /\ rlive s = 0 /\ rrunning s = 0 /\ rscheduling s = 0 /\ rreleased s = 0.
 Proof. exact tr_wait_l. Qed.
 Print Assumptions wait_means_idle_taskrunner.
 
@@ -392,7 +395,7 @@ Proof. vm_compute. reflexivity. Qed.
 
 (* TaskRunner n = 1: second Schedule blocks until task 0 (which panics) ends; ScheduleImmediately is refused *)
 Example ex_taskrunner :
-  let s := rexec 1 [[RSched true; RSchedNow false]; [RSched false]] [0;0; 2; 0; 1;1; 2; 1; 3;3] in
+  let s := rexec 1 [[RSched true; RSchedNow false]; [RSched false]] [0;0; 2; 0; 1;1; 2;2; 1; 3;3;3] in
   (map rres (rthreads s), rc s, rwg s, map tst (rtasks s)) = ([[1;0]; [1]]%Z, 0, 0, [TDone; TDone]).
 Proof. vm_compute. reflexivity. Qed.
 
@@ -450,12 +453,12 @@ Proof. vm_compute. reflexivity. Qed.
 (* TaskRunner n = 1: Wait (thread 1) is blocked while task 0 (which panics) is live and stays
    blocked while thread 0's second Schedule is pending/running; it returns after task 1 ended *)
 Example ex_wait :
-  let s := rexec 1 [[RSched true; RSched false]; [RWait]] [0;0; 1;1; 2; 0;0; 1; 2; 0; 1; 3;3; 1] in
+  let s := rexec 1 [[RSched true; RSched false]; [RWait]] [0;0; 1;1; 2; 0;0; 1; 2;2; 0; 1; 3;3;3; 1] in
   (map rres (rthreads s), rc s, rwg s, map tst (rtasks s)) = ([[1;1]; [1]]%Z, 0, 0, [TDone; TDone]).
 Proof. vm_compute. reflexivity. Qed.
 
 Example ex_wait_blocked :
-  let s := rexec 1 [[RSched true; RSched false]; [RWait]] [0;0; 1;1; 2; 0;0; 1; 2; 0; 1] in
+  let s := rexec 1 [[RSched true; RSched false]; [RWait]] [0;0; 1;1; 2; 0;0; 1; 2;2; 0; 1] in
   (map rpcof (rthreads s), rwg s) = ([RIdle; RWaitingWg], 1).
 Proof. vm_compute. reflexivity. Qed.
 
